@@ -29,6 +29,8 @@ def check_handover_lock(ctx: Ctx, locks: LockSets, oid: str) -> None:
                             tgt = "_callbacks[id] store"
                 if isinstance(x, ast.Call) and callee_attr(x) == "received" and fi.short == "BaseGateway._thread_receiver":
                     tgt = "msg.received(self) dispatch"
+                if isinstance(x, ast.Call) and fi.short == "Channel.setcallback" and (callee_attr(x) in ("get", "get_nowait") or (isinstance(x.func, ast.Name) and x.func.id == "callback")):
+                    tgt = "hand-over drain step (queued item -> callback)"
                 if tgt is None:
                     continue
                 n += 1
@@ -36,7 +38,7 @@ def check_handover_lock(ctx: Ctx, locks: LockSets, oid: str) -> None:
                 ob.site(fi, x, tgt, held=sorted(held))
                 if RECVLOCK not in held:
                     ob.violation(fi, x, f"{tgt} without holding the gateway's _receivelock: the queue->callback hand-over can interleave with message dispatch (items lost or reordered)")
-        ob.require(n >= 3, f"{n} hand-over/dispatch sites (floor 3)")
+        ob.require(n >= 5, f"{n} hand-over/dispatch sites (floor 5)")
 
 
 
